@@ -123,7 +123,8 @@ func LayoutOf(t reflect.Type) (*Layout, error) {
 				return nil, fmt.Errorf("field %s: unknown enum wire type %q", sf.Name, en)
 			}
 			switch en {
-			case "uint8", "int8", "uint16", "uint32", "int32", "uint64":
+			case "uint8", "int8", "uint16", "int16", "uint32", "int32", "uint64", "int64":
+				// (the spec lets any integer field carry an enum; whether the library accepts all of them is its business)
 			default:
 				return nil, fmt.Errorf("field %s: type %q cannot carry an enum", sf.Name, en)
 			}
